@@ -250,6 +250,7 @@ static void body()
     vrt::require("split.empty_sep_on_NUL_text", 10);
     vrt::require("split.form.char", 100);
     vrt::require("split.form.cstr", 100);
+    vrt::require("split.huge_max", 100);
     vrt::require("replace.cases", 1000);
     vrt::require("replace.multiple_matches", 100);
     vrt::require("replace.grows", 100);
@@ -334,9 +335,16 @@ static void body()
         bool ci = r.chance(1, 2);
         size_t occ = ref::split(s, sep, SMAX, ci).size() - 1;
         size_t max;
-        switch (r.below(6)) {
+        switch (r.below(7)) {
         case 0: max = 0; break;
         case 1: max = SMAX; break;
+        case 6: {   // limits far beyond the number of occurrences ("all values of max_splits from 0 to SIZE_MAX")
+            static const size_t huge[] = {SMAX - 1, SMAX - 2, SMAX / 2, SMAX / 2 + 1, SMAX / 2 - 1, size_t(1) << 32, (size_t(1) << 32) - 1, size_t(1) << 31,
+                                          (size_t(1) << 31) - 1, SMAX / 8, SMAX / 16 + 1, size_t(1) << 40, 1000003};
+            max = r.pick(huge);
+            vrt::count("split.huge_max");
+            break;
+        }
         case 2: max = occ; break;
         case 3: max = occ ? occ - 1 : 1; break;
         case 4: max = occ + 1; break;
